@@ -31,5 +31,7 @@ PROP = {
          "env": {"ASAN_OPTIONS": "detect_leaks=0"}},
         {"mon": "mon_c10", "cfg": "asan_z", "cases": _q(800, 20000), "args": ["--mode", "oom"] + _SMALL, "seed_off": 55,
          "env": {"ASAN_OPTIONS": "detect_leaks=0"}},
+        {"mon": "mon_c10", "cfg": "valgrind", "cases": _q(1600, 80000), "args": ["--mode", "hostile", "--time_limit", "900", "--maxexp_bool", "62", "--maxexp_other", "40"],
+         "seed_off": 66, "prefix": ["valgrind", "-q", "--error-exitcode=99", "--track-origins=no", "--leak-check=no"]},
     ],
 }
